@@ -182,6 +182,17 @@ def p5_cases(tier, seed):
             yield archives.default_case(chain=chain, members=members, header="raw", block=61, chunk=16, seed=seed)
 
 
+def p6_cases(tier, seed):
+    """Multi-volume targets as a full product: volume size x header mode x member count x chain.  The header and the packed
+    streams then straddle one, two, three and more volume files (a read on a multi-volume stream is short at every volume end)."""
+    vols = [64, 72, 100, 150, 512] if tier == "quick" else [64, 65, 72, 80, 100, 128, 150, 333, 512, 4096]
+    for vol in vols:
+        for header, chain in (("raw", "COPY"), ("raw", "LZMA2"), ("encoded", "COPY"), ("encoded", "BZIP2"), ("encrypted", "LZMA2+AES"), ("raw", "COPY+AES")):
+            for count in (0, 1, 3) if tier == "quick" else (0, 1, 2, 3, 5):
+                members = [(f"volume-member-{k}.bin", "random" if k % 2 == 0 else "repetitive", 33 + 100 * k, k + 1) for k in range(count)]
+                yield archives.default_case(chain=chain, header=header, target=f"mv{vol}", members=members, seed=seed)
+
+
 def p2_cases(tier, seed):
     names = chains.ALL if tier == "thorough" else chains.FAMILIES + ["LZMA2+AES", "COPY+AES", "X86+BZIP2+AES", "AES"]
     sizes = [32767, 32768, 32769, (1 << 20) - 1, 1 << 20, (1 << 20) + 1] + ([(1 << 21) + 1] if tier == "thorough" else [])
@@ -247,7 +258,7 @@ def shard(task):
     kind, arg = task
     sh = Shard()
     wd = archives.fresh_dir("c01")
-    if kind in ("P1", "P2", "P4", "P5"):
+    if kind in ("P1", "P2", "P4", "P5", "P6"):
         for case in arg:
             modes = ("factory",) if kind == "P5" else ("factory", "path")
             if "PPMD" in case["chain"] and chains.has_bcj(case["chain"]):
@@ -323,11 +334,11 @@ def replay(case):
 def main(tier="quick", seed=0, only=None):
     chk = Check("C01", "exploration", MODULE, tier, seed)
     tasks = []
-    planes = {"P1": list(p1_cases(tier, seed)), "P2": list(p2_cases(tier, seed)), "P4": list(p4_cases(tier, seed)), "P5": list(p5_cases(tier, seed))}
+    planes = {"P1": list(p1_cases(tier, seed)), "P2": list(p2_cases(tier, seed)), "P4": list(p4_cases(tier, seed)), "P5": list(p5_cases(tier, seed)), "P6": list(p6_cases(tier, seed))}
     for name, cases in planes.items():
         if only and name not in only:
             continue
-        per = {"P1": 60, "P2": 6, "P4": 20, "P5": 150}[name]
+        per = {"P1": 60, "P2": 6, "P4": 20, "P5": 150, "P6": 10}[name]
         tasks += [(name, c) for c in chunks(cases, per)]
     bound = 2 if tier == "quick" else 3
     if not only or "P3" in only:
@@ -349,7 +360,7 @@ def main(tier="quick", seed=0, only=None):
             "S(64) x textures, and 25 two-member solid lists, with the I/O block rebound to 64 and 61 bytes and the extraction chunk to 7; "
             "P2: chains x sizes around 32 KiB and 1 MiB at the real constants; P3: choice-tree exploration of (chain, header mode, target "
             f"kind incl. multi-volume 64/100/4096, member count 0..3, name class, size, chunk limit, writestr/writef) with <= {bound} "
-            "deviations from (LZMA2, encoded, BytesIO, one ASCII member); P4: every documented parameter value; P5: solid folders of 4..5 members over the full product of sizes {1,10,64,74,130} around a 64-byte block, with and without a 7-byte extraction chunk. Each case is written by "
+            "deviations from (LZMA2, encoded, BytesIO, one ASCII member); P4: every documented parameter value; P6: multi-volume targets as a full product volume size {64,72,100,150,512 (thorough: 10 sizes)} x header raw/encoded/encrypted x 0/1/3 members x chain, so that header and packed streams straddle 1, 2, 3+ volume files; P5: solid folders of 4..5 members over the full product of sizes {1,10,64,74,130} around a 64-byte block, with and without a 7-byte extraction chunk. Each case is written by "
             "py7zr, reopened, and compared by getnames, extractall(factory) and extractall(path). Distinct by case digest; non-trivial = "
             "at least one non-empty member reached the byte comparison."
         ),
